@@ -32,6 +32,10 @@ NOTES = {
  "C14-4": "round 2; first missed; RELEASE reports a nil teardown on an early return after a live acquisition", "C14-5": "round 2; first missed; an upstream may not be subscribed with an API-supplied context (CTX-PROVENANCE, now also in C14)", "C14-6": "round 2",
  "C10-4": "round 2", "C10-5": "round 2", "C10-6": "round 2; first missed; unicast backlog-consumed clause of SUBJECT-DELIVERS added",
  "C11-4": "round 2", "C11-5": "round 2; first missed; the connectable's reset teardown must be registered on every path after the source was subscribed", "C11-6": "round 2",
+ "C06-4": "round 2; first missed; SUBJECT-DELIVERS requires that the registered observer is the subscriber built by NewSubscriber (added to C06)", "C06-5": "round 2", "C06-6": "round 2",
+ "C13-4": "round 2", "C13-5": "round 2", "C13-6": "round 2; first missed by C13 (reported by C02); NO-DOWNGRADE added to C13",
+ "C15-4": "round 2; first missed by C15 (reported by C12); STATE-LEVEL added to C15", "C15-5": "round 2", "C15-6": "round 2; first missed; ADD-AFTER-CLOSE added",
+ "C04-4": "round 2; first missed; NO-POST-DELIVERY-MUTATION now covers containers declared at the top of a helper", "C04-5": "round 2; first missed; TERMINAL-CALL-AGREEMENT added", "C04-6": "round 2; first missed; TIMER-DEQUEUE-COUPLED added",
  "C16-1": "first missed; WATCHDOG-REARM added", "C16-2": "first missed; STATE-LEVEL added to C16 (the counter of a periodic source is per-subscription state)",
  "C20-2": "first missed by C20 (reported by C12): a change to core GroupBy; C20 now re-checks the core premises of the native limiter", "C20-3": "first missed by C20 (reported by C10/C02): a change to the core unicast subject; C20 now re-checks the core premises of the native limiter",
 }
